@@ -1,12 +1,15 @@
 package main
 
 import (
+	"context"
 	"fmt"
 	"math/rand"
 	"strconv"
 	"strings"
 	"time"
 
+	"google.golang.org/grpc/status"
+	"google.golang.org/protobuf/types/known/fieldmaskpb"
 	"google.golang.org/protobuf/types/known/timestamppb"
 
 	"github.com/smart-core-os/sc-api/go/traits"
@@ -92,9 +95,22 @@ func encTs(t *timestamppb.Timestamp) string {
 	return strconv.FormatInt(t.Seconds, 10)
 }
 
+// meterState reads through the gRPC surface (MeterApi has only Get/Pull: ModelServer.GetMeterReading)
+// and cross-checks it with the Model getter.
 func meterState(m *meterpb.Model) string {
-	v, _ := m.GetMeterReading()
-	return f32s(v.Usage) + "," + encTs(v.StartTime) + "," + encTs(v.EndTime)
+	v, err := meterpb.NewModelServer(m).GetMeterReading(context.Background(), &traits.GetMeterReadingRequest{})
+	if err != nil {
+		return "err:" + status.Code(err).String()
+	}
+	s := f32s(v.Usage) + "," + encTs(v.StartTime) + "," + encTs(v.EndTime)
+	if d, _ := m.GetMeterReading(); f32s(d.Usage)+","+encTs(d.StartTime)+","+encTs(d.EndTime) != s {
+		return "server/model-differ:" + s
+	}
+	// a read mask selects fields of the same reading
+	if u, err := meterpb.NewModelServer(m).GetMeterReading(context.Background(), &traits.GetMeterReadingRequest{ReadMask: &fieldmaskpb.FieldMask{Paths: []string{"usage"}}}); err != nil || f32s(u.Usage) != f32s(v.Usage) || u.StartTime != nil || u.EndTime != nil {
+		return "read-mask-differs:" + s
+	}
+	return s
 }
 
 func (c *meterSeq) RunCode() string {
@@ -202,7 +218,7 @@ func init() {
 	decoders["meter/seq"] = decoder[meterSeq]()
 	builders = append(builders, func(f lib.Flags, res *lib.Result, rng *rand.Rand) []*section {
 		s := &section{name: "meter/seq",
-			tie: res.Tie("meter.Model RecordReading/Reset sequences", "K1", "random: injected clock starting at t0 in 1000..2000 s; WithInitialValue 30% (usage, any subset of start<=end<=t0 present); 1..10 ops RecordReading(usage in {0, k/4}) 75% / Reset 25%, clock advance 0..5 s before each op; short first; non-trivial = has a RecordReading; distinct by request line"),
+			tie: res.Tie("meter.Model RecordReading/Reset sequences", "K1", "state read through ModelServer.GetMeterReading (cross-checked with the Model getter and a usage read mask); random: injected clock starting at t0 in 1000..2000 s; WithInitialValue 30% (usage, any subset of start<=end<=t0 present); 1..10 ops RecordReading(usage in {0, k/4}) 75% / Reset 25%, clock advance 0..5 s before each op; short first; non-trivial = has a RecordReading; distinct by request line"),
 			mon: res.Monitor("meter.registers", "usage/start/end registers: NewModel keeps configured reading and fills absent times with now; RecordReading sets usage,end and keeps start; Reset sets all; start <= end; no panic")}
 		n := f.N(1500, 20000)
 		for i := 0; i < n; i++ {
